@@ -709,6 +709,8 @@ type recQ struct {
 	lens   []lenObs
 	recLen bool
 	ackSeq, Acks int
+	seen    []any // every job object handed to Enqueue, in order
+	seenMu  sync.Mutex
 	bound   int // > 0: capacity of this user queue; Enqueue waits while it is full
 	Blocked int
 	fdeq   int // percent of dequeues on a non-empty queue that this (user-supplied) queue refuses
@@ -857,10 +859,25 @@ func (r *recQ) Dequeue() (any, bool) {
 	return v, ok
 }
 
+// seenItems: the last few job objects this queue was handed (oldest first).
+func (r *recQ) seenItems() []any {
+	// (a real lock, held for a few instructions with no yield inside: the edge a user queue's
+	// own synchronisation would give between storing an item and looking at it elsewhere)
+	r.seenMu.Lock()
+	defer r.seenMu.Unlock()
+	if len(r.seen) > 3 {
+		return append([]any(nil), r.seen[len(r.seen)-3:]...)
+	}
+	return append([]any(nil), r.seen...)
+}
+
 // remember/forget map queued items to submissions without calling into the
 // library (its accessors contain yield points).
 func (r *recQ) remember(item any, sub int) {
 	r.items = append(r.items, qItem{item, sub})
+	r.seenMu.Lock()
+	r.seen = append(r.seen, item)
+	r.seenMu.Unlock()
 	if sub >= 0 {
 		if r.objs == nil {
 			r.objs = map[int]any{}
